@@ -213,6 +213,7 @@ type Obl struct {
 	Guard     string
 	Goal      string
 	At        int // number of body lines visible
+	Blk       int // index of the basic block (of the function under verification) being encoded; -1 before the first
 	ExpectSat bool
 	Src       string // source text of the clause / expression
 	Pos       string
@@ -234,6 +235,8 @@ type VC struct {
 	compT    map[string]types.Type
 	strs     map[string]string
 	funcKey  string
+	curBlk   int // basic block of the root function being encoded (for Obl.Blk)
+	started  bool            // the encoding of instructions has begun (see predeclare)
 	notes    []string        // unsupported / abstraction notes
 	assumed  map[string]bool // trusted / opaque callees used
 	oblNames map[string]int
@@ -332,7 +335,7 @@ func (vc *VC) oblige(kind, label, guard, goal, src, pos string) *Obl {
 	if k := vc.oblNames[base]; k > 1 {
 		name = fmt.Sprintf("%s~%d", base, k)
 	}
-	o := &Obl{Name: name, Kind: kind, Func: vc.funcKey, Guard: guard, Goal: goal, At: len(vc.lines), Src: src, Pos: pos}
+	o := &Obl{Name: name, Kind: kind, Func: vc.funcKey, Guard: guard, Goal: goal, At: len(vc.lines), Blk: vc.curBlk, Src: src, Pos: pos}
 	vc.obls = append(vc.obls, o)
 	return o
 }
@@ -360,7 +363,13 @@ func (vc *VC) compAt(c string, s Sort, epoch int) string {
 		vc.declared[name] = true
 		vc.header = append(vc.header, fmt.Sprintf("(declare-const %s %s)", name, s))
 		if epoch == 0 {
-			if inv := heapInv(name, s, "|alloc@0|"); inv != "" {
+			// A component first mentioned after the encoding has started may belong to objects that a
+			// callee allocated meanwhile: its entry value is only constrained on rows that existed at
+			// entry. Components declared up front (predeclare) are re-described at every allocation.
+			if inv := heapInv(name, s, "|alloc@0|", vc.started); inv != "" {
+				vc.header = append(vc.header, "(assert "+inv+")")
+			}
+			if inv := ptrElemInv(c, name, s, "|alloc@0|", vc.started); inv != "" {
 				vc.header = append(vc.header, "(assert "+inv+")")
 			}
 		}
@@ -370,20 +379,46 @@ func (vc *VC) compAt(c string, s Sort, epoch int) string {
 
 // heapInv is the well-formedness invariant of a freshly introduced heap value
 // holding slices: every stored slice header is well formed and allocated.
-func heapInv(term string, s Sort, alloc string) string {
+func heapInv(term string, s Sort, alloc string, guarded bool) string {
+	g := func(body string) string {
+		if guarded {
+			return fmt.Sprintf("(=> (<= r!h %s) %s)", alloc, body)
+		}
+		return body
+	}
+	// Only rows of objects / arrays that exist when the heap value is introduced are constrained:
+	// a row above the allocation counter belongs to something allocated later (possibly inside a
+	// callee, which then describes it in its postcondition), so nothing may be said about it here.
 	switch s {
 	case "(Array Int Slice)":
-		return fmt.Sprintf("(forall ((r!h Int)) (! (and (wf-slice (select %s r!h)) (<= (s-arr (select %s r!h)) %s)) :pattern ((select %s r!h))))", term, term, alloc, term)
+		// row 0 belongs to nil, which is never written (a write through nil panics: safe:nil obligations);
+		// giving it the nil slice makes "x.f.g[*]" denote nothing when x.f is nil
+		return fmt.Sprintf("(and (forall ((r!h Int)) (! %s :pattern ((select %s r!h)))) (= (s-arr (select %s 0)) 0))", g(fmt.Sprintf("(and (wf-slice (select %s r!h)) (<= (s-arr (select %s r!h)) %s))", term, term, alloc)), term, term)
 	case "(Array Int (Array Int Slice))":
-		return fmt.Sprintf("(forall ((r!h Int) (j!h Int)) (! (and (wf-slice (select (select %s r!h) j!h)) (<= (s-arr (select (select %s r!h) j!h)) %s)) :pattern ((select (select %s r!h) j!h))))", term, term, alloc, term)
+		return fmt.Sprintf("(forall ((r!h Int) (j!h Int)) (! %s :pattern ((select (select %s r!h) j!h))))", g(fmt.Sprintf("(and (wf-slice (select (select %s r!h) j!h)) (<= (s-arr (select (select %s r!h) j!h)) %s))", term, term, alloc)), term)
 	}
 	return ""
+}
+
+// ptrElemInv: the elements of arrays of pointers are nil or allocated objects.
+func ptrElemInv(comp, term string, s Sort, alloc string, guarded bool) string {
+	if !strings.HasPrefix(comp, "E:*") || s != "(Array Int (Array Int Int))" {
+		return ""
+	}
+	body := fmt.Sprintf("(and (<= 0 (select (select %s r!h) j!h)) (<= (select (select %s r!h) j!h) %s))", term, term, alloc)
+	if guarded {
+		body = fmt.Sprintf("(=> (<= r!h %s) %s)", alloc, body)
+	}
+	return fmt.Sprintf("(forall ((r!h Int) (j!h Int)) (! %s :pattern ((select (select %s r!h) j!h))))", body, term)
 }
 
 // declareHeap declares an unconstrained heap value (havoc) with its well-formedness invariant.
 func (vc *VC) declareHeap(hint string, s Sort, alloc string) string {
 	n := vc.declare(hint, s)
-	if inv := heapInv(n, s, alloc); inv != "" {
+	if inv := heapInv(n, s, alloc, false); inv != "" {
+		vc.lines = append(vc.lines, "(assert "+inv+")")
+	}
+	if inv := ptrElemInv(strings.TrimPrefix(hint, "hv_"), n, s, alloc, false); inv != "" {
 		vc.lines = append(vc.lines, "(assert "+inv+")")
 	}
 	return n
